@@ -20,7 +20,7 @@ ASSUMPTIONS = _x1.X1_ASSUMPTIONS + ["whether a checkpoint after clear_checkpoint
 
 MENU = [("pause",), ("dpause",), ("suspend", "none"), ("suspend", "both")]
 SPECS = {
-    "quick": [spec("clearcp", MENU, bound=1, k=k) for k in range(5)] + [spec("lifecycle", MENU, bound=1), spec("clearcp2", MENU, bound=1)],
+    "quick": [spec("clearcp", MENU, bound=1, k=k) for k in range(5)] + [spec("lifecycle", MENU, bound=1), spec("clearcp2", MENU, bound=1), spec("clearcp", MENU, bound=2, k=2)],
     "thorough": [spec("clearcp", MENU, bound=2, k=k) for k in range(5)]
     + [spec("clearcp", MENU, bound=1, k=k, a=1) for k in range(5)]
     + [spec("lifecycle", MENU, bound=2), spec("clearcp2", MENU, bound=2), spec("clearcp2", MENU, bound=1, a=1)],
